@@ -160,6 +160,13 @@ func classifyValue(info *types.Info, e ast.Expr, calleeBody *ast.BlockStmt, ret 
 		if obj == nil || obj.IsField() {
 			return vkUnknown
 		}
+		// a package-level sentinel: `var ErrX = errors.New(…)` that is never assigned again
+		if obj.Pkg() != nil && obj.Parent() == obj.Pkg().Scope() {
+			if nfCurPkg != nil && sentinelNonNil(nfCurPkg, info, obj) {
+				return vkNonNil
+			}
+			return vkUnknown
+		}
 		// assigned by the statement immediately before the return, in the same statement list
 		if rhs := precedingAssign(info, calleeBody, ret, obj); rhs != nil {
 			if _, isID := ast.Unparen(rhs).(*ast.Ident); !isID {
@@ -505,6 +512,7 @@ func (nz *Normalizer) detectGuard(fset *token.FileSet, s *nfSite, stmt ast.Stmt,
 		if !ok {
 			return nil
 		}
+		nfCurPkg = s.pkg
 		g := &guardInfo{ifs: ifs, kind: kind, k: k, eval: ev, lhsObjs: objs, lhsText: txt, pkgs: s.pkg}
 		if lastConstRHS != nil {
 			// only the plain forms `v == K` / `v != K` (no surrounding negation) are handled
@@ -800,4 +808,46 @@ func usedInFuncLit(info *types.Info, stack []ast.Node, obj types.Object) bool {
 		return !found
 	})
 	return found
+}
+
+// nfCurPkg: the package whose call site is being transformed (for package-level facts in classifyValue).
+var nfCurPkg *packages.Package
+
+// sentinelNonNil: obj is a package-level variable declared with an initialiser errors.New(…) / fmt.Errorf(…)
+// and no statement of the package assigns to it or takes its address.
+func sentinelNonNil(pkg *packages.Package, info *types.Info, obj types.Object) bool {
+	init := false
+	for _, f := range pkg.Syntax {
+		for _, d := range f.Decls {
+			gd, ok := d.(*ast.GenDecl)
+			if !ok || gd.Tok != token.VAR {
+				continue
+			}
+			for _, sp := range gd.Specs {
+				vs := sp.(*ast.ValueSpec)
+				for i, n := range vs.Names {
+					if info.Defs[n] != obj || i >= len(vs.Values) {
+						continue
+					}
+					if call, isCall := ast.Unparen(vs.Values[i]).(*ast.CallExpr); isCall {
+						if sel, isSel := call.Fun.(*ast.SelectorExpr); isSel {
+							if fn, isFn := info.Uses[sel.Sel].(*types.Func); isFn && fn.Pkg() != nil {
+								full := fn.Pkg().Path() + "." + fn.Name()
+								init = full == "errors.New" || full == "fmt.Errorf"
+							}
+						}
+					}
+				}
+			}
+		}
+	}
+	if !init {
+		return false
+	}
+	for _, f := range pkg.Syntax {
+		if writesTo(info, f, obj) {
+			return false
+		}
+	}
+	return true
 }
